@@ -342,6 +342,11 @@ impl PartialEq for Identifier
 pub enum GeneratorBuiltin
 {
 	Abort,
+	/// Abort where a value of some type is expected (which is never used).
+	AbortAs
+	{
+		value_type: ValueType,
+	},
 	Format
 	{
 		arguments: Vec<Expression>,
@@ -360,6 +365,7 @@ impl Typed for GeneratorBuiltin
 		match self
 		{
 			GeneratorBuiltin::Abort => ValueType::Void,
+			GeneratorBuiltin::AbortAs { value_type } => value_type.clone(),
 			GeneratorBuiltin::Format { .. } => ValueType::for_string_slice(),
 			GeneratorBuiltin::Write { .. } => ValueType::Usize,
 		}
